@@ -148,6 +148,13 @@ theorem PSt.step_grows {S : Schema} {st st' : PSt} {s : Step} (h : st.step S s =
     subst h
     exact .one hs
 
+theorem PSt.step_tr' {S : Schema} {st st' : PSt} {s : Step} (h : st.step S s = .ok st') :
+    st.tr.step S s = .ok st'.tr := by
+  unfold PSt.step at h
+  cases hs : st.tr.step S s with
+  | error e => rw [hs] at h; simp [Except.map] at h
+  | ok tr => rw [hs] at h; simp only [Except.map, Except.ok.injEq] at h; subst h; rfl
+
 theorem PSt.stepAll_grows {S : Schema} : ∀ (ss : List Step) {st st' : PSt}, st.stepAll S ss = .ok st' →
     Tr.Grows S st.tr st'.tr
   | [], st, st', h => by
